@@ -203,7 +203,7 @@ CLAIMED['C09'] = (
 CLAIMED['C10'] = (
     'Lean theorems over a character-level model of the client parser (substring marker with indentation, set.pop() as an arbitrary choice, deletion of the label and of '
     'blank runs, unit rule, number parser, table rows split on blank runs): any choice of matching line gives the same field when the matching lines agree (so the '
-    'structure cannot depend on the hash seed); the answer is always read off a line carrying the marker; a table row round-trips through the splitter for ANY column '
+    'structure cannot depend on the hash seed); the answer is always read off a line carrying the marker; a kernel-decided obligation over tables regenerated from the writers\' AST, the parameter declarations and the client field table, lifted by a general theorem: for every client field, every label the writers can print, any indentation and any colon-free figure text, the field\'s marker matches the line only if the field IS the label (never a value from another line); a table row round-trips through the splitter for ANY column '
     'widths (overflowing figures cannot shift or drop a cell); kernel-evaluated examples and an ambiguity witness. Tie: on every generated report the real GeophiresXResult '
     'is compared with an independent tokenisation (value, unit, every cell of every profile table, row counts), with the Lean model on the same lines (the real answer must '
     'be the single candidate over all choices), with itself under three PYTHONHASHSEEDs, its CSV export with its own result entry by entry, and the JSON written next to '
